@@ -28,24 +28,25 @@ theorem sill_reveal_spans_gap (pos : Vec3) (az t : Ang) (x y u v : Rat) :
   unfold toGlobal wallToWorld vadd Ang.add Ang.neg Ang.half
   apply vec3_ext <;> simp [rotZ, rotX] <;> ring
 
-/-- **jamb reveals on a vertical wall** (tilt 90°; pose: azimuth ± 90°, the wall's tilt): the left one maps `(u, v)` to the
-    wall-frame point `(x, y + h + v, −u)` (`u ∈ {0, setback}`, `v ∈ {0, −height}`), the right one `(u, v)` to `(x + w, y + h + v, u)`
-    (`u ∈ {0, −setback}`): they span the gap along the two vertical edges -/
-theorem left_reveal_spans_gap_vertical (pos : Vec3) (az : Ang) (x y h u v : Rat) :
-    toGlobal (wallToWorld pos az Ang.half ⟨x, y + h, 0⟩) (Ang.add az Ang.half) Ang.half u v =
-      wallToWorld pos az Ang.half ⟨x, y + h + v, -u⟩ := by
+/-- **jamb reveals** (pose: azimuth ± 90°, vertical; polygon turned in its plane by the wall's tilt): the left one maps `(u, v)` to
+    the wall-frame point `(x, y + h + v, −u)` (`u ∈ {0, setback}`, `v ∈ {0, −height}`), the right one `(u, v)` to
+    `(x + w, y + h + v, u)` (`u ∈ {0, −setback}`): they span the gap along the two side edges, for every wall tilt and azimuth
+    (before the repair F-C13d the pose kept the wall's tilt and the polygon was not turned: right on vertical walls only) -/
+theorem left_reveal_spans_gap (pos : Vec3) (az t : Ang) (x y h u v : Rat) :
+    toGlobal (wallToWorld pos az t ⟨x, y + h, 0⟩) (Ang.add az Ang.half) Ang.half (v * t.c + u * t.s) (v * t.s - u * t.c) =
+      wallToWorld pos az t ⟨x, y + h + v, -u⟩ := by
   unfold toGlobal wallToWorld vadd Ang.add Ang.half
   apply vec3_ext <;> simp [rotZ, rotX] <;> ring
 
-theorem right_reveal_spans_gap_vertical (pos : Vec3) (az : Ang) (x y h w u v : Rat) :
-    toGlobal (wallToWorld pos az Ang.half ⟨x + w, y + h, 0⟩) (Ang.add az (Ang.neg Ang.half)) Ang.half u v =
-      wallToWorld pos az Ang.half ⟨x + w, y + h + v, u⟩ := by
+theorem right_reveal_spans_gap (pos : Vec3) (az t : Ang) (x y h w u v : Rat) :
+    toGlobal (wallToWorld pos az t ⟨x + w, y + h, 0⟩) (Ang.add az (Ang.neg Ang.half)) Ang.half (u * t.s - v * t.c) (v * t.s + u * t.c) =
+      wallToWorld pos az t ⟨x + w, y + h + v, u⟩ := by
   unfold toGlobal wallToWorld vadd Ang.add Ang.neg Ang.half
   apply vec3_ext <;> simp [rotZ, rotX] <;> ring
 
-/-- **not** a theorem for other tilts (finding F-C13d): on a horizontal wall (a skylight, tilt 0) the left jamb reveal's point
-    (setback, 0) lands in the roof plane, not below it — the pose turns about the global z axis instead of the wall's own y axis -/
-theorem left_reveal_horizontal_counterexample :
+/-- what the code did before the repair, on a horizontal wall (a skylight, tilt 0): the left jamb's point (setback, 0) landed in
+    the roof plane, not below it (finding F-C13d, now fixed) -/
+theorem left_reveal_horizontal_old_code_counterexample :
     toGlobal (wallToWorld ⟨0, 0, 3⟩ Ang.zero Ang.zero ⟨1, 2, 0⟩) (Ang.add Ang.zero Ang.half) Ang.zero (3 / 10) 0 = ⟨1, 23 / 10, 3⟩ ∧
     wallToWorld ⟨0, 0, 3⟩ Ang.zero Ang.zero ⟨1, 2, -(3 / 10)⟩ = ⟨1, 2, 27 / 10⟩ := by
   constructor <;> decide +kernel
@@ -55,17 +56,17 @@ example : [(0, 0), (0, -(1 / 5 : Rat)), (2, -(1 / 5)), (2, 0)].map
       (fun p => toGlobal (wallToWorld ⟨0, 0, 0⟩ Ang.zero Ang.half ⟨3, 1 + 1, 0⟩) Ang.zero (Ang.add Ang.half Ang.half) p.1 p.2) =
     [⟨3, 0, 2⟩, ⟨3, 1 / 5, 2⟩, ⟨5, 1 / 5, 2⟩, ⟨5, 0, 2⟩] := by decide +kernel
 
-/-- on a vertical wall the four generated surfaces are exactly the four rectangles between the wall plane (z = 0) and the window
-    plane (z = −s) along the window's edges, in the wall's frame -/
-theorem reveals_vertical (pos : Vec3) (az : Ang) (x y w h s : Rat) :
-    reveals pos az Ang.half x y w h s =
-      [ [⟨x, y + h, 0⟩, ⟨x, y + h, -s⟩, ⟨x + w, y + h, -s⟩, ⟨x + w, y + h, 0⟩].map (wallToWorld pos az Ang.half),
-        [⟨x, y + h, 0⟩, ⟨x, y, 0⟩, ⟨x, y, -s⟩, ⟨x, y + h, -s⟩].map (wallToWorld pos az Ang.half),
-        [⟨x + w, y + h, 0⟩, ⟨x + w, y + h, -s⟩, ⟨x + w, y, -s⟩, ⟨x + w, y, 0⟩].map (wallToWorld pos az Ang.half),
-        [⟨x, y, 0⟩, ⟨x + w, y, 0⟩, ⟨x + w, y, -s⟩, ⟨x, y, -s⟩].map (wallToWorld pos az Ang.half) ] := by
+/-- **the four generated surfaces are exactly the four rectangles between the wall plane (z = 0) and the window plane (z = −s)
+    along the window's edges**, in the wall's frame, for every wall pose -/
+theorem reveals_span_gap (pos : Vec3) (az t : Ang) (x y w h s : Rat) :
+    reveals pos az t x y w h s =
+      [ [⟨x, y + h, 0⟩, ⟨x, y + h, -s⟩, ⟨x + w, y + h, -s⟩, ⟨x + w, y + h, 0⟩].map (wallToWorld pos az t),
+        [⟨x, y + h, 0⟩, ⟨x, y, 0⟩, ⟨x, y, -s⟩, ⟨x, y + h, -s⟩].map (wallToWorld pos az t),
+        [⟨x + w, y + h, 0⟩, ⟨x + w, y + h, -s⟩, ⟨x + w, y, -s⟩, ⟨x + w, y, 0⟩].map (wallToWorld pos az t),
+        [⟨x, y, 0⟩, ⟨x + w, y, 0⟩, ⟨x + w, y, -s⟩, ⟨x, y, -s⟩].map (wallToWorld pos az t) ] := by
   unfold reveals
-  simp only [List.map_cons, List.map_nil, head_reveal_spans_gap, sill_reveal_spans_gap, left_reveal_spans_gap_vertical,
-    right_reveal_spans_gap_vertical]
+  simp only [List.map_cons, List.map_nil, head_reveal_spans_gap, sill_reveal_spans_gap, left_reveal_spans_gap,
+    right_reveal_spans_gap]
   simp
 
 end Cte.Props.C13Reveal
